@@ -5,6 +5,7 @@ RULE = ("generated task programs with fault sites: task steps that raise, batch 
         "flush bodies that raise before item k, ErrorFuture, failing lazily-computed Future, non-future objects in the "
         "yielded structure, with and without enclosing try/except at any level; distinct = different AST+params; "
         "non-trivial = at least one fault site and at least one yield with >= 2 leaves")
+TRANSLATED = True     # unwrap / extract_futures are re-translated from the source on every run (harness/lib/transcheck.py)
 TRUSTED = ["Python/Gallina emitters of harness/lib/machprog.py"]
 ASSUMPTIONS = ["faults are Exception subclasses (BaseException from user code is outside the statement)"]
 EXPLANATION = "projection: outcomes + Step/Got payloads + Done events; identity of exception instances is checked in-process with `is`"
